@@ -4,6 +4,7 @@ import (
 	"context"
 	"encoding/hex"
 	"fmt"
+	"strings"
 	"testing"
 	"testing/synctest"
 
@@ -183,7 +184,11 @@ func (c09) Gen(r *world.Rng, tier string, n int) interface{} {
 			elems = int(regs.BC >> 8)
 		}
 		kinds := []string{"NMI", "IM1", "IM2", "CRASH"}
-		if elems <= 32 && r.Chance(1, 2) && sc.Op&0x10 != 0 {
+		enumMax := 32
+		if strings.HasPrefix(tier, "thorough") {
+			enumMax = 64
+		}
+		if elems <= enumMax && r.Chance(1, 2) && sc.Op&0x10 != 0 {
 			sc.Enumerate = kinds[r.Intn(4)]
 		} else if r.Chance(1, 8) && sc.Op&0x10 != 0 {
 			// cancellation of Run in the middle of the operation, resumed afterwards
